@@ -2,12 +2,13 @@
    _parse_bcur_helper on the header fields, BCURSingle.encode / parse and
    BCURMulti.encode / parse.
 
-   A BCUR string is modelled by its fields [part]: the form (2, 3 or 4 slash-separated
-   segments: "ur:bytes/<payload>", "ur:bytes/<checksum>/<payload>",
+   This file works on the header fields [part] of a BCUR string: the form (2, 3 or 4
+   slash-separated segments: "ur:bytes/<payload>", "ur:bytes/<checksum>/<payload>",
    "ur:bytes/<x>of<y>/<checksum>/<payload>"), x, y, checksum text and payload text.
-   The string operations of _parse_bcur_helper (strip, startswith, split("/"),
-   split("of"), int()) are not modelled: the harness formats the fields into the
-   string and the correspondence ties the two.  lower() is modelled (ASCII).
+   The string operations of _parse_bcur_helper (lower, strip, startswith, split("/"),
+   split("of"), int()) and the f-strings of encode are modelled in Model/BcurStr.v, which
+   builds the functions on real strings from the ones defined here (the harness exercises both
+   layers: fields formatted by the harness, and the strings themselves).  lower() is ASCII.
    The base64 wrapping of BCURSingle/BCURMulti (binascii) is not modelled: payloads
    are byte strings.  Definitions only. *)
 From V Require Import Base.Prelude Base.Ints Model.Helper Model.Base58 Model.Bech32.
